@@ -22,10 +22,10 @@ META = dict(
     property="C18",
     level="exploration",
     technique="metamorphic segmentation test of the real Site/HTTPChannel: one-piece delivery vs all single cuts / all cut pairs / byte-wise / boundary-focused / random cuts of grammar-generated (valid and mutated) request streams",
-    level_text="Grammar-generated pipelined request streams (1-4 requests; CL and chunked bodies, extensions, trailers, obs-fold, Expect: 100-continue, Connection: close, HTTP/1.0; mutations: bad request line, header without colon, NUL, bad chunk size, missing chunk CRLF, LF-only, junk, truncation; sizes at MAX_LENGTH / totalHeadersSize / maxChunkSizeLineLength / trailer limit) are delivered whole and re-delivered under every single cut (streams <= 400 bytes), every pair of cuts (<= 80 bytes), byte-wise, cuts around every piece boundary and random cuts; three response schedules (resource finishes inside render, after the delivery that completed the request, only after the whole input). Observed requests + written bytes + close flag must equal the one-piece run. Sampled, not exhaustive.",
-    level_note="Transport double written for the check (records writes, loseConnection, pause/resume); delivery stops once loseConnection was called, as a TCP transport stops reading. twisted.web.server.datetimeToString pinned, timeouts on an un-advanced task.Clock. The resource is part of the harness. Says nothing about whether the one-piece behaviour itself is right (that is C19).",
+    level_text="Grammar-generated pipelined request streams (1-4 requests; CL and chunked bodies, extensions, trailers, obs-fold, Expect: 100-continue, Connection: close, HTTP/1.0; mutations: bad request line, header without colon, NUL, bad chunk size, missing chunk CRLF, LF-only, junk, truncation; sizes at MAX_LENGTH / totalHeadersSize / maxChunkSizeLineLength / trailer limit) are delivered whole and re-delivered under every single cut (streams <= 400 bytes), every pair of cuts (<= 80 bytes), byte-wise, cuts around every piece boundary and random cuts; three response schedules (resource finishes inside render, after the delivery that completed the request, only after the whole input). Observed requests + written bytes + close flag must equal the one-piece run. In about 40% of the streams the harness clock advances before every delivery by 2%, 45% or 98% of the channel's idle timeout (never a full timeout: the client is active, so total elapsed time may exceed the timeout many times over while no gap does) and the result must still equal the one-piece run. Sampled, not exhaustive.",
+    level_note="Transport double written for the check (records writes, loseConnection, pause/resume); delivery stops once loseConnection was called, as a TCP transport stops reading. twisted.web.server.datetimeToString pinned; timeouts run on a task.Clock that only the harness advances (gaps strictly below the idle timeout, read from the channel's timeOut). The resource is part of the harness. Says nothing about whether the one-piece behaviour itself is right (that is C19).",
     design_ref="§5 C18",
-    rule="case = (pieces, response schedule, cut spec). non-trivial delivery = a cut strictly inside a CRLFCRLF, inside a chunk-size line, or exactly between two pipelined requests, on a stream for which the one-piece run delivered at least one request or produced a 400; distinct by (stream, schedule, cuts).",
+    rule="case = (pieces, response schedule, cut spec, gap = % of the idle timeout elapsing before each delivery). non-trivial delivery = a cut strictly inside a CRLFCRLF, inside a chunk-size line, or exactly between two pipelined requests, on a stream for which the one-piece run delivered at least one request or produced a 400; distinct by (stream, schedule, cuts).",
 )
 
 FIXED_DATE = b"Thu, 01 Jan 1970 00:00:00 GMT"
@@ -97,8 +97,11 @@ class HarnessBug(Exception):
     pass
 
 
-def serve(segments, mode):
-    """Feed segments to a fresh server connection; return the observation."""
+def serve(segments, mode, gap=0):
+    """Feed segments to a fresh server connection; return the observation.
+
+    gap: percentage of the channel's idle timeout by which the clock advances
+    before every delivery (always < 100: the client is never idle that long)."""
     from twisted.internet.task import Clock
     from twisted.web import server, resource
 
@@ -151,10 +154,17 @@ def serve(segments, mode):
         request.write(text[11:])
         request.finish()
 
+    if not 0 <= gap < 100:
+        raise HarnessBug("gap must stay below the idle timeout")
+    step = (proto.timeOut or 0) * gap / 100.0
     delivered = 0
     for seg in segments:
         if tr.disconnecting:
             break
+        if step:
+            clock.advance(step)
+            if tr.disconnecting:        # timed out
+                break
         proto.dataReceived(seg)
         delivered += len(seg)
         if mode == "after":
@@ -280,7 +290,10 @@ def run_case(ctx, case):
     case = normalise(case)
     data = stream_of(case)
     mode = case["mode"]
-    whole = serve([data] if data else [], mode)
+    gap = case.get("gap", 0)
+    whole = serve([data] if data else [], mode, gap)
+    if gap:
+        ctx.count("streams:timed (clock advances %d%% of the idle timeout before each delivery)" % gap)
     in_eoh, in_chunk, between, _ = interesting_offsets(case)
     live = bool(whole["requests"]) or b" 400 " in whole["written"]
     ctx.count("streams")
@@ -301,7 +314,11 @@ def run_case(ctx, case):
     n_del = 0
     for cuts in cut_lists(case):
         segs = harness.split_at(data, cuts)
-        split = serve(segs, mode)
+        split = serve(segs, mode, gap)
+        if gap:
+            ctx.count("timed deliveries")
+            if len(segs) * gap >= 200:
+                ctx.count("timed deliveries lasting > 2 idle timeouts in total")
         n_del += 1
         diff = first_difference(whole, split)
         if diff is not None:
@@ -319,14 +336,19 @@ def run_case(ctx, case):
                     where = "cut-in-" + "+".join(kinds)
             where += _size_class(case)
             small = dict(pieces=compact["pieces"], mode=mode, cuts=list(cuts))
-            ctx.violation("segmentation:%s:%s" % (diff, where), small,
-                          "stream=%r cuts=%r mode=%s\n one piece: %s\n split:     %s"
-                          % (data[:400], cuts[:20], mode, describe(whole), describe(split)))
+            kind = "segmentation"
+            if gap:
+                small["gap"] = gap
+                if first_difference(serve([data] if data else [], mode), serve(segs, mode)) is None:
+                    kind = "timed-segmentation"     # only differs when time passes between deliveries
+            ctx.violation("%s:%s:%s" % (kind, diff, where), small,
+                          "stream=%r cuts=%r mode=%s gap=%d%% of the idle timeout\n one piece: %s\n split:     %s"
+                          % (data[:400], cuts[:20], mode, gap, describe(whole), describe(split)))
         if live:
             cs = set(cuts)
             a, b, c = bool(cs & in_eoh), bool(cs & in_chunk), bool(cs & between)
             if a or b or c:
-                ctx.nontrivial((data, mode, tuple(cuts)))
+                ctx.nontrivial((data, mode, tuple(cuts), gap))
                 if a:
                     ctx.count("nt:cut-in-crlfcrlf")
                 if b:
@@ -522,7 +544,8 @@ def stream_case(draw, max_requests=4, mutate=None, cuts=None):
             cuts = _pick(draw, ["near", "bytewise", "random"])
         if cuts == "random":
             cuts = [draw(_int(1, max(1, total - 1))) for _ in range(draw(_int(1, 8)))]
-    return dict(pieces=pieces, mode=mode, cuts=cuts)
+    gap = _pick(draw, [0, 0, 0, 2, 45, 98, 98])
+    return dict(pieces=pieces, mode=mode, cuts=cuts, gap=gap)
 
 
 def _pad_header(name, line_len, end=b""):
